@@ -7,7 +7,8 @@
      lu_invert_sound    : lu_invert n eps A = Some X          -> A.X = I
      lu_success_regular : lu_decomp n eps A = Some _          -> A is regular (A.y = 0 -> y = 0), hence
      lu_singular_fails  : A singular -> lu_solve / lu_solve_mat / lu_invert = None
-     lu_decomp_total_rhs: a successful factorisation solves every right-hand side (back substitution cannot fail). *)
+     lu_decomp_total_rhs: a successful factorisation solves every right-hand side (back substitution cannot fail).
+     lu_failure_column_small : (|.|, < order-like) failure is reported only when a whole pivot column is below eps. *)
 From Coq Require Import List Bool Arith Lia Field.
 From C07 Require Import C07Model.
 Import ListNotations.
@@ -98,6 +99,22 @@ Section LU.
     intros n a f Ha. rewrite (sumn_split n (S a) f) by lia. simpl. reflexivity.
   Qed.
 
+  Lemma mul_zero_reg : forall a b, a <> f0 -> a *! b = f0 -> b = f0.
+  Proof.
+    intros a b Ha H. assert (E : b = (a *! b) /! a) by (field; exact Ha). rewrite E, H. field. exact Ha.
+  Qed.
+
+  Lemma leb_true : forall a b, a <= b -> (a <=? b) = true.
+  Proof. intros. apply Nat.leb_le. assumption. Qed.
+  Lemma leb_false : forall a b, b < a -> (a <=? b) = false.
+  Proof. intros. apply Nat.leb_gt. assumption. Qed.
+  Lemma ltb_true : forall a b, a < b -> (a <? b) = true.
+  Proof. intros. apply Nat.ltb_lt. assumption. Qed.
+  Lemma ltb_false : forall a b, b <= a -> (a <? b) = false.
+  Proof. intros. apply Nat.ltb_ge. assumption. Qed.
+  Lemma eqb_false : forall a b, a <> b -> (a =? b) = false.
+  Proof. intros. apply Nat.eqb_neq. assumption. Qed.
+
   (* ------------------------------------------------------------------ entry-wise updates *)
   Lemma mset_same : forall (m : matF) i j v, mset m i j v i j = v.
   Proof. intros. unfold C07Model.mset. rewrite !Nat.eqb_refl. reflexivity. Qed.
@@ -166,7 +183,7 @@ Section LU.
         intro E; try apply Hi in E; try assumption; subst; try congruence; try lia.
     - intros q Hq. destruct (Hs q Hq) as [r [Hrn Hpr]].
       destruct (Nat.eq_dec r i) as [->|Hri].
-      + exists j. split; [assumption|]. destruct (Nat.eqb_spec j i); [subst; assumption|].
+      + exists j. split; [assumption|]. destruct (Nat.eqb_spec j i); [congruence|].
         rewrite Nat.eqb_refl. assumption.
       + destruct (Nat.eq_dec r j) as [->|Hrj].
         * exists i. split; [assumption|]. rewrite Nat.eqb_refl. assumption.
@@ -307,7 +324,7 @@ Section LU.
       assert (HU1 : forall r c, r < i -> r < c -> c < n ->
                 A (p r) c = sumn r (fun k => m1 (p r) k *! m1 (p k) c) +! m1 (p r) r *! m1 (p r) c).
       { intros r c Hr Hrc Hc. rewrite (HU r c) by lia. rewrite !(L3 r) by lia. f_equal. apply sumn_ext. intros k Hk.
-        rewrite (L3 k c) by lia. reflexivity. }
+        rewrite (L3 r k), (L3 k c) by lia. reflexivity. }
       assert (HR1 : forall r c, i <= r -> r < n -> S i <= c -> m1 (p r) c = A (p r) c).
       { intros r c Hr Hrn Hc. rewrite L2 by lia. apply HR; lia. }
       assert (HP1 : forall r, r < i -> r < n -> fltb (fabs (m1 (p r) r)) eps = false).
@@ -343,7 +360,7 @@ Section LU.
           * field. apply pivot_nonzero. exact Hpiv.
           * intros k Hk. rewrite (U2 (p1 i) k) by lia. rewrite (U3 (p1 k) c) by (apply Hne; lia). reflexivity.
         + rewrite (HU2 r c) by lia. rewrite !(U3 (p1 r)) by (apply Hne; lia). f_equal. apply sumn_ext.
-          intros k Hk. rewrite (U3 (p1 k) c) by (apply Hne; lia). reflexivity.
+          intros k Hk. rewrite (U3 (p1 r) k), (U3 (p1 k) c) by (apply Hne; lia). reflexivity.
       - intros r c Hr Hrn Hc. rewrite U3 by (apply Hne; lia). apply HR2; lia.
       - intros r Hr Hrn. rewrite U2 by lia. destruct (Nat.eq_dec r i) as [->|Hri]. exact Hpiv. apply HP2; lia.
     Qed.
@@ -351,16 +368,19 @@ Section LU.
     Lemma lu_steps_none : forall l, lu_steps n eps l None = None.
     Proof. induction l; simpl; auto. Qed.
 
+    Lemma lu_steps_cons : forall i l s, lu_steps n eps (i :: l) (Some s) = lu_steps n eps l (lu_step n eps s i).
+    Proof. reflexivity. Qed.
+
     Lemma lu_steps_inv : forall k i m p m' p', i + k <= n -> lu_inv i m p ->
       lu_steps n eps (seq i k) (Some (m, p)) = Some (m', p') -> lu_inv (i + k) m' p'.
     Proof.
       induction k; intros i m p m' p' Hik Hinv H.
       - simpl in H. injection H as <- <-. rewrite Nat.add_0_r. exact Hinv.
-      - simpl in H. destruct (lu_step n eps (m, p) i) as [[m1 p1]|] eqn:Hs.
+      - change (seq i (S k)) with (i :: seq (S i) k) in H. rewrite lu_steps_cons in H.
+        destruct (lu_step n eps (m, p) i) as [[m1 p1]|] eqn:Hs.
         + replace (i + S k) with (S i + k) by lia. apply (IHk (S i) m1 p1); [lia| |exact H].
           apply (lu_step_inv i m p); [lia|assumption|assumption].
-        + unfold C07Model.lu_steps in H. fold (lu_steps n eps (seq (S i) k) None) in H.
-          rewrite lu_steps_none in H. discriminate.
+        + rewrite lu_steps_none in H. discriminate.
     Qed.
 
     (* P.A = L.U in Crout form, every pivot passes the eps test *)
@@ -417,7 +437,7 @@ Section LU.
           eexists. split; [reflexivity|].
           destruct (row_update_spec x i (fun k => (x (p i) k -! sumk i (fun j => m (p i) j *! x (p j) k)) /! m (p i) i))
             as [R1 R2].
-          set (x' := fold_left _ (seq 0 M) x) in *.
+          match goal with |- context [fold_left ?f (seq 0 M) x] => set (x' := fold_left f (seq 0 M) x) in * end.
           assert (Hne : forall r, r < n -> r <> i -> p r <> p i).
           { intros r Hr Hri E'. apply (p_inj n p Hp) in E'; lia. }
           split.
@@ -462,16 +482,17 @@ Section LU.
           destruct (brow_update_spec b (n - 1) (fun k => x (p (n - 1)) k)) as [R1 _].
           rewrite (R1 k Hk). replace (n - S (n - 1)) with 0 by lia. simpl. ring.
         - rewrite seq_S, fold_left_app. simpl. cbv zeta.
-          set (z0 := fold_left _ (seq 0 t) _) in *.
+          match goal with |- context [fold_left ?f (seq 0 t) ?a] => set (z0 := fold_left f (seq 0 t) a) in * end.
           specialize (IHt ltac:(lia)). cbv zeta in IHt.
           set (i := n - 1 - t) in *. set (pi2 := i - 1).
           destruct (brow_update_spec z0 pi2 (fun k => x (p pi2) k -! sumr i n (fun j => m (p pi2) j *! z0 j k))) as [R1 R2].
-          set (z1 := fold_left _ (seq 0 M) z0) in *.
+          match goal with |- context [fold_left ?f (seq 0 M) z0] => set (z1 := fold_left f (seq 0 M) z0) in * end.
           intros r k Hr Hrn Hk. destruct (Nat.eq_dec r pi2) as [->|Hrp].
           + rewrite (R1 k Hk). rewrite sumr_eq. replace (S pi2) with i by (unfold pi2, i; lia).
-            f_equal. apply sumn_ext. intros j Hj. rewrite (R2 (i + j)%nat k) by (unfold pi2; lia). reflexivity.
+            f_equal. apply sumn_ext. intros j Hj. replace (S (pi2 + j)) with (i + j)%nat by (unfold pi2, i; lia).
+            rewrite (R2 (i + j)%nat k) by (unfold pi2; lia). reflexivity.
           + rewrite (R2 r k Hrp). rewrite (IHt r k) by (unfold pi2, i in *; lia). f_equal. apply sumn_ext.
-            intros j Hj. rewrite (R2 (S r + j)%nat k) by (unfold pi2, i in *; lia). reflexivity.
+            intros j Hj. change (S r + j)%nat with (S (r + j)). rewrite (R2 (S (r + j)) k) by (unfold pi2, i in *; lia). reflexivity.
       Qed.
 
       (* A(p(r), c) = sum_k L(r,k) U(k,c) with L, U read in m *)
@@ -482,34 +503,34 @@ Section LU.
         intros r c Hr Hc. destruct (Nat.le_gt_cases c r) as [Hcr|Hcr].
         - rewrite (inv_L _ _ _ Hinv r c) by lia.
           rewrite (sumn_split3 n c) by lia. rewrite Nat.ltb_irrefl, Nat.eqb_refl.
-          replace (c <=? r) with true by (symmetry; apply Nat.leb_le; lia).
+          rewrite (leb_true (c) (r)) by lia.
           rewrite (sumn_zero (n - S c)).
-          + rewrite (sumn_ext c _ (fun k => m (p r) k *! m (p k) c)). ring.
-            intros k Hk. replace (k <=? r) with true by (symmetry; apply Nat.leb_le; lia).
-            replace (k <? c) with true by (symmetry; apply Nat.ltb_lt; lia). reflexivity.
-          + intros k Hk. replace (S c + k <? c) with false by (symmetry; apply Nat.ltb_ge; lia).
-            replace (S c + k =? c) with false by (symmetry; apply Nat.eqb_neq; lia). ring.
+          + rewrite (sumn_ext c (fun k => (if k <=? r then m (p r) k else f0) *! (if k <? c then m (p k) c else if k =? c then f1 else f0)) (fun k => m (p r) k *! m (p k) c)). ring.
+            intros k Hk. rewrite (leb_true (k) (r)) by lia.
+            rewrite (ltb_true (k) (c)) by lia. reflexivity.
+          + intros k Hk. rewrite (ltb_false (S c + k) (c)) by lia.
+            rewrite (eqb_false (S c + k) (c)) by lia. ring.
         - rewrite (inv_U _ _ _ Hinv r c) by lia.
           rewrite (sumn_split3 n r) by lia. rewrite Nat.leb_refl.
-          replace (r <? c) with true by (symmetry; apply Nat.ltb_lt; lia).
+          rewrite (ltb_true (r) (c)) by lia.
           rewrite (sumn_zero (n - S r)).
-          + rewrite (sumn_ext r _ (fun k => m (p r) k *! m (p k) c)). ring.
-            intros k Hk. replace (k <=? r) with true by (symmetry; apply Nat.leb_le; lia).
-            replace (k <? c) with true by (symmetry; apply Nat.ltb_lt; lia). reflexivity.
-          + intros k Hk. replace (S r + k <=? r) with false by (symmetry; apply Nat.leb_gt; lia). ring.
+          + rewrite (sumn_ext r (fun k => (if k <=? r then m (p r) k else f0) *! (if k <? c then m (p k) c else if k =? c then f1 else f0)) (fun k => m (p r) k *! m (p k) c)). ring.
+            intros k Hk. rewrite (leb_true (k) (r)) by lia.
+            rewrite (ltb_true (k) (c)) by lia. reflexivity.
+          + intros k Hk. rewrite (leb_false (S r + k) (r)) by lia. ring.
       Qed.
 
       Theorem back_substitute_spec : exists X, back_substitute n M eps chk m p b = Some X /\
         forall r k, r < n -> k < M -> sumn n (fun c => A r c *! X c k) = b r k.
       Proof.
         unfold C07Model.back_substitute, C07Model.bs_forward.
-        destruct (bs_forward_spec n (le_n n)) as [x [E [F1 _]]]. rewrite E.
+        destruct (bs_forward_spec n (le_n n)) as [x [E [F1 _]]]. cbv zeta in E. rewrite E.
         eexists. split; [reflexivity|].
         intros q k Hq Hk. destruct (p_surj n p Hp q Hq) as [r [Hr <-]].
         assert (Hn : 0 < n) by lia.
         pose proof (bs_backward_spec x Hn (n - 1) (le_n _)) as B. cbv zeta in B.
         unfold C07Model.bs_backward. cbv zeta.
-        set (z := fold_left _ (seq 0 (n - 1)) _) in *.
+        match goal with |- context [fold_left ?f (seq 0 (n - 1)) ?a] => set (z := fold_left f (seq 0 (n - 1)) a) in * end.
         (* y(j) = x(p(j)) = sum_c U(j,c) z(c) *)
         assert (Y : forall j, j < n -> x (p j) k =
                   sumn n (fun c => (if j <? c then m (p j) c else if j =? c then f1 else f0) *! z c k)).
@@ -519,9 +540,9 @@ Section LU.
             rewrite (sumn_ext (n - S j) (fun t => (if j <? S j + t then m (p j) (S j + t)%nat
                        else if j =? S j + t then f1 else f0) *! z (S j + t)%nat k)
                      (fun t => m (p j) (S j + t)%nat *! z (S j + t)%nat k)). ring.
-            intros t Ht. replace (j <? S j + t) with true by (symmetry; apply Nat.ltb_lt; lia). reflexivity.
-          - intros c Hc. replace (j <? c) with false by (symmetry; apply Nat.ltb_ge; lia).
-            replace (j =? c) with false by (symmetry; apply Nat.eqb_neq; lia). ring. }
+            intros t Ht. rewrite (ltb_true (j) (S j + t)) by lia. reflexivity.
+          - intros c Hc. rewrite (ltb_false (j) (c)) by lia.
+            rewrite (eqb_false (j) (c)) by lia. ring. }
         rewrite (sumn_ext n _ (fun c => sumn n (fun j => (if j <=? r then m (p r) j else f0) *!
                    ((if j <? c then m (p j) c else if j =? c then f1 else f0) *! z c k)))).
         2:{ intros c Hc. rewrite (lu_product r c Hr Hc). rewrite sumn_mul_r. apply sumn_ext. intros j Hj. ring. }
@@ -530,9 +551,45 @@ Section LU.
         2:{ intros j Hj. rewrite <- sumn_mul_l. rewrite <- (Y j Hj). reflexivity. }
         rewrite <- (F1 r k Hr Hk).
         rewrite (sumn_split3 n r) by lia. rewrite Nat.leb_refl. rewrite (sumn_zero (n - S r)).
-        - rewrite (sumn_ext r _ (fun j => m (p r) j *! x (p j) k)). ring.
-          intros j Hj. replace (j <=? r) with true by (symmetry; apply Nat.leb_le; lia). reflexivity.
-        - intros j Hj. replace (S r + j <=? r) with false by (symmetry; apply Nat.leb_gt; lia). ring.
+        - rewrite (sumn_ext r (fun j => (if j <=? r then m (p r) j else f0) *! x (p j) k) (fun j => m (p r) j *! x (p j) k)). ring.
+          intros j Hj. rewrite (leb_true (j) (r)) by lia. reflexivity.
+        - intros j Hj. rewrite (leb_false (S r + j) (r)) by lia. ring.
+      Qed.
+
+      (* A is regular: L has a non-null diagonal and U a unit diagonal *)
+      Theorem lu_regular : forall y, (forall r, r < n -> sumn n (fun c => A r c *! y c) = f0) ->
+        forall c, c < n -> y c = f0.
+      Proof.
+        intros y Hy.
+        set (w := fun k => sumn n (fun c => (if k <? c then m (p k) c else if k =? c then f1 else f0) *! y c)).
+        assert (W : forall r, r < n -> sumn r (fun k => m (p r) k *! w k) +! m (p r) r *! w r = f0).
+        { intros r Hr. rewrite <- (Hy (p r)) by (apply (p_range n p Hp); exact Hr).
+          rewrite (sumn_ext n (fun c => A (p r) c *! y c)
+                     (fun c => sumn n (fun k => (if k <=? r then m (p r) k else f0) *!
+                        ((if k <? c then m (p k) c else if k =? c then f1 else f0) *! y c)))).
+          2:{ intros c Hc. rewrite (lu_product r c Hr Hc). rewrite sumn_mul_r. apply sumn_ext. intros k Hk. ring. }
+          rewrite sumn_swap.
+          rewrite (sumn_ext n _ (fun k => (if k <=? r then m (p r) k else f0) *! w k)).
+          2:{ intros k Hk. unfold w. rewrite <- sumn_mul_l. reflexivity. }
+          rewrite (sumn_split3 n r) by lia. rewrite Nat.leb_refl. rewrite (sumn_zero (n - S r)).
+          - rewrite (sumn_ext r (fun k => (if k <=? r then m (p r) k else f0) *! w k) (fun k => m (p r) k *! w k)). ring.
+            intros k Hk. rewrite (leb_true k r) by lia. reflexivity.
+          - intros k Hk. rewrite (leb_false (S r + k) r) by lia. ring. }
+        assert (W0 : forall r, r < n -> w r = f0).
+        { induction r as [r IH] using lt_wf_ind. intros Hr. specialize (W r Hr).
+          rewrite (sumn_zero r) in W.
+          - apply (mul_zero_reg (m (p r) r)). apply piv_nz; exact Hr. rewrite <- W. ring.
+          - intros k Hk. rewrite (IH k) by lia. ring. }
+        assert (Y0 : forall t c, n - t <= c -> c < n -> y c = f0).
+        { induction t; intros c Hc Hcn. lia.
+          destruct (Nat.le_gt_cases (n - t) c) as [H|H]. apply IHt; assumption.
+          pose proof (W0 c Hcn) as E. unfold w in E.
+          rewrite (sumn_split3 n c) in E by lia. rewrite Nat.ltb_irrefl, Nat.eqb_refl in E.
+          rewrite (sumn_zero c) in E.
+          - rewrite (sumn_zero (n - S c)) in E. rewrite <- E. ring.
+            intros k Hk. rewrite (IHt (S c + k)%nat) by lia. ring.
+          - intros k Hk. rewrite (ltb_false c k) by lia. rewrite (eqb_false c k) by lia. ring. }
+        intros c Hc. apply (Y0 n c); lia.
       Qed.
     End Subst.
 
@@ -565,5 +622,116 @@ Section LU.
       intros [m p] D M chk b. unfold C07Model.lu_solve_mat. rewrite D.
       destruct (back_substitute_spec m p M chk b (lu_decomp_inv m p D)) as [X [E _]]. exists X. exact E.
     Qed.
+
+    (* a successful factorisation: A is regular; hence an (exactly) singular matrix is always reported *)
+    Definition singular (A : matF) : Prop :=
+      exists y, (exists c, c < n /\ y c <> f0) /\ forall r, r < n -> sumn n (fun c => A r c *! y c) = f0.
+
+    Theorem lu_success_regular : forall mp, lu_decomp n eps A = Some mp ->
+      forall y, (forall r, r < n -> sumn n (fun c => A r c *! y c) = f0) -> forall c, c < n -> y c = f0.
+    Proof. intros [m p] D. apply (lu_regular m p (lu_decomp_inv m p D)). Qed.
+
+    Theorem lu_singular_fails : singular A ->
+      lu_decomp n eps A = None /\ (forall M chk b, lu_solve_mat n M eps chk A b = None) /\
+      (forall chk b, lu_solve n eps chk A b = None) /\ lu_invert n eps A = None.
+    Proof.
+      intros [y [[c [Hc Hyc]] Hy]].
+      assert (D : lu_decomp n eps A = None).
+      { destruct (lu_decomp n eps A) as [mp|] eqn:D; [|reflexivity].
+        exfalso. apply Hyc. apply (lu_success_regular mp D y Hy c Hc). }
+      split; [exact D|]. unfold C07Model.lu_invert, C07Model.lu_solve, C07Model.lu_solve_mat. rewrite D.
+      repeat split; reflexivity.
+    Qed.
+
+    (* ---------------------------------------------------------------- when is a failure reported?
+       (|.|, <) are only assumed to behave like an order: asymmetry and transitivity of `not <` *)
+    Section Failure.
+      Hypothesis Hasym : forall a b, fltb a b = true -> fltb b a = false.
+      Hypothesis Hntrans : forall a b c, fltb a b = false -> fltb b c = false -> fltb a c = false.
+
+      Lemma lu_search_max : forall i (m : matF) p, i < n ->
+        let '(cmax, piv) := lu_search n i m p in
+        cmax = fabs (m (p piv) i) /\ forall j, i <= j < n -> fltb cmax (fabs (m (p j) i)) = false.
+      Proof.
+        intros i m p Hi. unfold C07Model.lu_search.
+        assert (G : forall l c0 q0 (seen : nat -> Prop),
+                  c0 = fabs (m (p q0) i) -> (forall j, seen j -> fltb c0 (fabs (m (p j) i)) = false) ->
+                  let '(cmax, piv) := fold_left (fun '(cmax, piv) j => let v := fabs (m (p j) i) in
+                                         if fltb cmax v then (v, j) else (cmax, piv)) l (c0, q0) in
+                  cmax = fabs (m (p piv) i) /\ forall j, seen j \/ In j l -> fltb cmax (fabs (m (p j) i)) = false).
+        { induction l as [|x l IH]; intros c0 q0 seen Hc Hseen; simpl.
+          - split; [exact Hc|]. intros j [Hj|[]]. apply Hseen; exact Hj.
+          - destruct (fltb c0 (fabs (m (p x) i))) eqn:Hx.
+            + specialize (IH (fabs (m (p x) i)) x (fun j => seen j \/ j = x) eq_refl).
+              destruct (fold_left _ l (fabs (m (p x) i), x)) as [cmax piv].
+              destruct IH as [I1 I2].
+              * intros j [Hj| ->].
+                -- apply (Hntrans _ c0); [apply Hasym; exact Hx|apply Hseen; exact Hj].
+                -- destruct (fltb (fabs (m (p x) i)) (fabs (m (p x) i))) eqn:E; [|reflexivity].
+                   rewrite (Hasym _ _ E) in E. discriminate.
+              * split; [exact I1|]. intros j [Hj|[<-|Hj]]; apply I2; auto.
+            + specialize (IH c0 q0 (fun j => seen j \/ j = x) Hc).
+              destruct (fold_left _ l (c0, q0)) as [cmax piv].
+              destruct IH as [I1 I2].
+              * intros j [Hj| ->]; [apply Hseen; exact Hj|exact Hx].
+              * split; [exact I1|]. intros j [Hj|[<-|Hj]]; apply I2; auto. }
+        specialize (G (seq (S i) (n - S i)) (fabs (m (p i) i)) i (fun j => j = i) eq_refl).
+        destruct (fold_left _ (seq (S i) (n - S i)) (fabs (m (p i) i), i)) as [cmax piv].
+        destruct G as [G1 G2].
+        - intros j ->. destruct (fltb (fabs (m (p i) i)) (fabs (m (p i) i))) eqn:E; [|reflexivity].
+          rewrite (Hasym _ _ E) in E. discriminate.
+        - split; [exact G1|]. intros j Hj. apply G2. destruct (Nat.eq_dec j i); [left; assumption|right; apply in_seq; lia].
+      Qed.
+
+      (* a null pivot is reported at step i only if every candidate of the column (the entries of the Schur complement
+         column, rows p(j), j >= i) is below eps in modulus *)
+      Lemma lu_step_none : forall i (m : matF) p, i < n ->
+        lu_step n eps (m, p) i = None ->
+        forall j, i <= j < n -> fltb (fabs (lu_Lupdate n i m p (p j) i)) eps = true.
+      Proof.
+        intros i m p Hi H j Hj. unfold C07Model.lu_step in H.
+        set (m1 := lu_Lupdate n i m p) in *.
+        destruct (fltb (fabs (m1 (lu_perm n eps i m1 p i) i)) eps) eqn:Hpiv; [|discriminate]. clear H.
+        pose proof (lu_search_max i m1 p Hi) as S. unfold C07Model.lu_perm in Hpiv.
+        destruct (lu_search n i m1 p) as [cmax piv]. destruct S as [S1 S2].
+        assert (Small : fltb cmax eps = true -> fltb (fabs (m1 (p j) i)) eps = true).
+        { intro Hc. destruct (fltb (fabs (m1 (p j) i)) eps) eqn:E; [reflexivity|].
+          rewrite (Hntrans _ _ _ (S2 j Hj) E) in Hc. discriminate. }
+        destruct (Nat.eqb_spec piv i) as [Heq|Hne].
+        - subst piv. apply Small. rewrite S1. exact Hpiv.
+        - destruct (fltb (c01 *! cmax) (fabs (m1 (p i) i)) && fltb eps (fabs (m1 (p i) i))) eqn:Hk.
+          + apply andb_prop in Hk. destruct Hk as [_ Hk]. rewrite (Hasym _ _ Hk) in Hpiv. discriminate.
+          + apply Small. rewrite S1. unfold pswap in Hpiv. rewrite Nat.eqb_refl in Hpiv.
+            destruct (Nat.eqb_spec i piv); [congruence|exact Hpiv].
+      Qed.
+
+      Lemma lu_steps_none_inv : forall k i m p, i + k <= n -> lu_inv i m p ->
+        lu_steps n eps (seq i k) (Some (m, p)) = None ->
+        exists i' m' p', i <= i' < i + k /\ lu_inv i' m' p' /\ lu_step n eps (m', p') i' = None.
+      Proof.
+        induction k; intros i m p Hik Hinv H.
+        - simpl in H. discriminate.
+        - change (seq i (S k)) with (i :: seq (S i) k) in H. rewrite lu_steps_cons in H.
+          destruct (lu_step n eps (m, p) i) as [[m1 p1]|] eqn:Hs.
+          + destruct (IHk (S i) m1 p1) as [i' [m' [p' [Hi' [Hinv' Hn]]]]]; [lia| |exact H|].
+            * apply (lu_step_inv i m p); [lia|assumption|assumption].
+            * exists i', m', p'. split; [lia|]. split; assumption.
+          + exists i, m, p. split; [lia|]. split; assumption.
+      Qed.
+
+      (* LUDecomp::exe gives up only when, at some step i, the whole pivot column of the Schur complement
+         A(p(j),i) - sum_{k<i} L(j,k) U(k,i), j >= i, is below eps in modulus (no usable pivot) *)
+      Theorem lu_failure_column_small : lu_decomp n eps A = None ->
+        exists i m p, i < n /\ lu_inv i m p /\
+          forall j, i <= j < n ->
+            fltb (fabs (A (p j) i -! sumn i (fun k => m (p j) k *! m (p k) i))) eps = true.
+      Proof.
+        intro H. destruct (lu_steps_none_inv n 0 A (fun k => k)) as [i [m [p [Hi [Hinv Hn]]]]]; [lia|apply lu_inv_init|exact H|].
+        exists i, m, p. split; [lia|]. split; [exact Hinv|]. intros j Hj.
+        pose proof (lu_step_none i m p ltac:(lia) Hn j Hj) as Hs.
+        destruct (Lupdate_spec i m p (inv_perm _ _ _ Hinv)) as [L1 _]. rewrite (L1 j Hj) in Hs.
+        rewrite (inv_R _ _ _ Hinv j i) in Hs by lia. exact Hs.
+      Qed.
+    End Failure.
   End Decomp.
 End LU.
